@@ -312,8 +312,10 @@ fn apply(mu: &Mutn, r: &mut Req, keys: &mut Vec<(String, String)>) -> bool {
             let mut pb = r.path().as_bytes().to_vec();
             let c = pb[*i];
             let in_escape = (*i >= 1 && pb[*i - 1] == b'%') || (*i >= 2 && pb[*i - 2] == b'%');
-            pb[*i] = if c == b'%' || c == b'/' {
+            pb[*i] = if c == b'%' {
                 return false;
+            } else if c == b'/' {
+                b'/' // (a slash is doubled below: another key, not another spelling)
             } else if in_escape {
                 match c {
                     b'0'..=b'8' => c + 1,
@@ -326,6 +328,9 @@ fn apply(mu: &Mutn, r: &mut Req, keys: &mut Vec<(String, String)>) -> bool {
             } else {
                 b'q'
             };
+            if c == b'/' {
+                pb.insert(*i, b'/');
+            }
             let np = String::from_utf8(pb).unwrap();
             if pct_decode(&np).is_none() {
                 return false;
